@@ -495,6 +495,9 @@ class ConditionTransformation(PreprocessingTransformation):
                     self.processing_item_applied(
                         condition
                     )  # mark as processed by processing item containing this transformation
+                    # keep the condition strings of the detection section (used by to_dict()) in sync
+                    if i < len(rule.detection.condition):
+                        rule.detection.condition[i] = condition.condition
 
     @abstractmethod
     def apply_condition(self, cond: "SigmaCondition") -> None:
